@@ -106,6 +106,7 @@ void OnlineVariance::reset()
 
   data_.clear();
   squaredData_.clear();
+  index_ = 0;
 
   sumOfData_ = 0;
   sumOfSquaredData_ = 0;
